@@ -482,3 +482,67 @@ VARIANTS += [
  dict(name='response-parser-of-other-response', expect='flagged(raw/generate-signature/)',
       edits=[(P, CHAIN_CALL, CHAIN_CALL.replace('parseCertChain(resp.CertificateChain)', 'parseCertChain(req.KeyID, &plugin.GenerateSignatureResponse{KeyID: resp.KeyID})')), (P, CHAIN_PARSER, CHAIN_PARSER_RESP)]),
 ]
+
+# the descriptor-level filter is a module predicate (switch with returns / one boolean expression)
+SCAN_FILTER_PRED = r'''func isDescriptorAttribute(name string) bool {
+	switch name {
+	case "mediaType", "digest", "size", "urls":
+		return true
+	case "annotations", "data", "platform", "artifactType":
+		return true
+	}
+	return false
+}
+
+func areUnknownAttributesAdded(content []byte) []string {
+	var payloadMap map[string]interface{}
+	_ = json.Unmarshal(content, &payloadMap)
+	descriptor, _ := payloadMap["targetArtifact"].(map[string]interface{})
+	unknownAttributes := []string{}
+	for k := range descriptor {
+		if !isDescriptorAttribute(k) {
+			unknownAttributes = append(unknownAttributes, k)
+		}
+	}
+	for k := range payloadMap {
+		if k == "targetArtifact" {
+			continue
+		}
+		unknownAttributes = append(unknownAttributes, k)
+	}
+	return unknownAttributes
+}
+
+'''
+PRED_SWITCH = 'func isDescriptorAttribute(name string) bool {\n\tswitch name {\n\tcase "mediaType", "digest", "size", "urls":\n\t\treturn true\n\tcase "annotations", "data", "platform", "artifactType":\n\t\treturn true\n\t}\n\treturn false\n}\n'
+PRED_EXPR = 'func isDescriptorAttribute(name string) bool {\n\treturn name == "mediaType" || name == "digest" || name == "size" || name == "urls" ||\n\t\tname == "annotations" || name == "data" || name == "platform" || name == "artifactType"\n}\n'
+
+VARIANTS += [
+ dict(name='benign-scan-filter-module-predicate', file=P, expect='silent', find=SCAN, replace=SCAN_FILTER_PRED,
+      why='the predicate returns true only for descriptor JSON names; every other key is appended'),
+ dict(name='benign-scan-filter-module-predicate-expression', file=P, expect='silent', find=SCAN, replace=_sub(SCAN_FILTER_PRED, PRED_SWITCH, PRED_EXPR),
+      why='same predicate written as one boolean expression'),
+ dict(name='filter-scan-predicate-accepts-long-names', file=P, expect='flagged(scan/)', find=SCAN,
+      replace=_sub(SCAN_FILTER_PRED, '\treturn false\n}\n', '\treturn len(name) > 12\n}\n')),
+ dict(name='filter-scan-predicate-has-extra-key', file=P, expect='flagged(scan/removes-only-descriptor-fields)', find=SCAN,
+      replace=_sub(SCAN_FILTER_PRED, '"platform", "artifactType":', '"platform", "artifactType", "subject":')),
+ dict(name='filter-scan-predicate-expression-prefix-match', file=P, expect='flagged(scan/)', find=SCAN,
+      replace=_sub(_sub(SCAN_FILTER_PRED, PRED_SWITCH, PRED_EXPR), 'name == "artifactType"\n', 'name == "artifactType" || (len(name) > 2 && name[:2] == "x-")\n')),
+ dict(name='filter-scan-predicate-negation-lost', file=P, expect='flagged(scan/)', find=SCAN,
+      replace=_sub(SCAN_FILTER_PRED, '\t\tif !isDescriptorAttribute(k) {\n', '\t\tif isDescriptorAttribute(k) {\n')),
+]
+
+VARIANTS += [
+ dict(name='benign-scan-filter-comma-ok-lookup', file=P, expect='silent', find=SCAN,
+      replace=_sub(SCAN_FILTER, '\tdescriptor, _ := payloadMap["targetArtifact"].(map[string]interface{})\n',
+                   '\tvar descriptor map[string]interface{}\n\tif member, present := payloadMap["targetArtifact"]; present {\n\t\tdescriptor, _ = member.(map[string]interface{})\n\t}\n'),
+      why='the descriptor level is the comma-ok assertion of the comma-ok lookup of targetArtifact; nil when absent'),
+ dict(name='filter-scan-descriptor-of-other-member', file=P, expect='flagged(scan/reports-both-levels)', find=SCAN,
+      replace=_sub(SCAN_FILTER, '\tdescriptor, _ := payloadMap["targetArtifact"].(map[string]interface{})\n', '\tdescriptor, _ := payloadMap["target"].(map[string]interface{})\n')),
+]
+
+VARIANTS += [
+ dict(name='filter-scan-descriptor-level-only-for-small-payloads', file=P, expect='flagged(scan/reports-both-levels)', find=SCAN,
+      replace=_sub(SCAN_FILTER, '\tdescriptor, _ := payloadMap["targetArtifact"].(map[string]interface{})\n',
+                   '\tvar descriptor map[string]interface{}\n\tif len(content) < 4096 {\n\t\tdescriptor, _ = payloadMap["targetArtifact"].(map[string]interface{})\n\t}\n')),
+]
